@@ -531,7 +531,7 @@ func histTier(r *vh.Rng, out *vh.Out, tier string) map[string]interface{} {
 			defer func() { <-sem }()
 			journalStart(i, jobs[i].op)
 			res[i] = execHist(jobs[i].op)
-			journalDone(i)
+			journalDone(i, res[i])
 		}(i)
 	}
 	wg.Wait()
